@@ -26,6 +26,7 @@ FIXED = [
  ("websocket close aio completed twice", "C02", "ws_read_frame_cb WS_CLOSE branch finished ws->closeaio without testing ws->wclose: a peer CLOSE arriving just after the 100 ms close timer fired completed the aio twice"),
  ("raw-mode sockets always failed", "C15", "nni_msgq_aio_get/put called nni_aio_start (which refuses a zero timeout) before looking at the queue: non-blocking receive on raw-mode sockets never returned queued messages, non-blocking send never used free queue space (always NNG_EAGAIN)"),
  ("surveyor waited until the survey deadline", "C15", "surv0_ctx_recv treated a zero timeout like 'none' and replaced it by the survey expiry: nng_recvmsg(surveyor, NNG_FLAG_NONBLOCK) blocked up to SURVEYTIME"),
+ ("websocket listener leaked connections", "C03", "ws listener: server-side websockets that had completed the HTTP upgrade but were still on the listener's pending list (or finished their handshake after the listener was closed) were never released on stop/free: nni_ws + http connection + tcp connection leaked (nng_listener_close / socket close on a ws:// listener while clients are in the upgrade handshake)"),
  ("SUB receive descriptor stayed readable", "C15", "sub0_ctx_unsubscribe purged the queue without clearing the readable pollable: the receive poll descriptor stayed readable while non-blocking receive returned NNG_EAGAIN"),
 ]
 log = subprocess.run(["git", "-C", "/repo", "log", "--format=%h %s"], capture_output=True, text=True).stdout.strip().split("\n")
